@@ -35,6 +35,19 @@ CHECKS = {
         note="Priority keys use LSU without the regional factor (named deviation PriorityIgnoresRegionalFactor: main() "
              "sorts before the factor is applied). Meat kcal per head is an input chosen by the harness. Tolerances as C06.",
     ),
+    "C11": dict(
+        technique="TLA+ spec FoodAlgebra.tla: TLC enumerates every operation transition (depth 2-3) and each is replayed "
+                  "on real Food objects; metamorphic scalar-vs-series replay of the 16 predicates under 4 flag settings",
+        text="FoodAlgebra states, per operation, the labels / shape / numbers of the result or that the combination must "
+             "be refused; TLC checks that every reachable value is well formed (suffix 'each month' iff series; the three "
+             "labels share a suffix) and that a product's units do not depend on the side of the ratio, and emits all "
+             "~28k distinct (operation, operands) transitions, each replayed on real Food objects comparing labels, "
+             "label list, shape, numbers (exact rationals), operand snapshots and refusal <=> AssertionError.",
+        design_ref="5 (C11), FoodAlgebra.tla",
+        note="Universe: 3 unit triples (default, ratio, percent) x total/per-month/each-month x 2-3 number patterns, series "
+             "of 2 months. Outside the domain (named in the spec): non-ratio scalar x ratio series (the code refuses with "
+             "'consider implementing this feature'), two ratios with different suffixes. in_units is covered by C10.",
+    ),
 }
 
 NOT_YET = "check not built yet in this round (planned: see DESIGN.md section 5)"
